@@ -143,6 +143,10 @@ CONFIGS = [
     {"prefix": "/v1/", "strip": False, "base": "", "order": "proxy-first", "second_proxy": {"prefix": "/v2/", "strip": True}},
     {"prefix": "/v1/", "strip": True, "base": "", "order": "proxy-first", "second_proxy": {"prefix": "/v2/", "strip": False, "position": "before"}},
     {"prefix": "/api/", "strip": True, "base": "/b", "order": "proxy-first", "second_proxy": {"prefix": "/a/b/", "strip": False, "base": "/b"}},
+    # bases whose text is case-sensitive and carries characters a tidy-minded loader might touch
+    {"prefix": "/api/", "strip": True, "base": "/Capsule/V1", "order": "proxy-first"},
+    {"prefix": "/", "strip": False, "base": "/Mixed.Case_~/X", "order": "proxy-only"},
+    {"prefix": "/App/", "strip": True, "base": "/UPPER", "order": "proxy-first", "second_proxy": {"prefix": "/app/", "strip": True, "base": "/lower"}},
     # optional keys omitted (documented defaults) in a location that follows one which sets them
     {"prefix": "/v1/", "strip": True, "base": "", "order": "proxy-first", "second_proxy": {"prefix": "/mirror/", "strip": False, "base": "/m"}, "omit_defaults": True},
     {"prefix": "/mirror/", "strip": False, "base": "", "order": "proxy-first", "second_proxy": {"prefix": "/v1/", "strip": True, "position": "before"}, "omit_defaults": True},
